@@ -185,6 +185,13 @@ def complaintsRaw (trs : List (String × List Tok)) : List String :=
 def complaints (trs : List (String × List Tok)) : List String :=
   trs.flatMap (fun p => (dropProved p.1 (scan p.1 p.2)).map (fun m => p.1 ++ ": " ++ m))
 
+/-- the shared access (`what` under `lock`, receiver spelled `c`) is made by `root` itself or by a function that
+    `root` calls directly - whatever that (possibly unexported) function is called and whether it has been
+    inlined into `root` or not -/
+def accessVia (root what lock : String) : Bool :=
+  Gen.NetFacts.sharedAccesses.contains (root, what, lock) ||
+  Gen.NetFacts.callGraph.any (fun e => e.1 == root && Gen.NetFacts.sharedAccesses.contains (e.2, what, lock))
+
 /-! ### the scan on the two shapes of ParseAddr's database-full path and of processGetData's InvStore -/
 
 /-- `for { Lock; if full { goto unlock_db }; Put; unlock_db: Unlock }` — the current source -/
